@@ -160,6 +160,37 @@ def fixed_cases(d):
     ins = p.call(p.call(p.call(Q, "into", t), "columns", "id", "a"), "insert", ex(p, 777005), ex(p, "EXEMPT:insert %(x)s"))
     ins = p.call(p.call(ins, "on_conflict", "id"), "do_update", "a", ex(p, "EXEMPT:do-update"))
     out.append({"k": "program", "prog": p.prog(dialect=d, fixed="exempt-insert"), "tgt": ins.i})
+    # list-like clauses holding several terms of one shape that differ only in a constant - or not at all (each occurrence is its
+    # own placeholder with its own value)
+    for pair in ((10, 100), (7, 7)):
+        p = P()
+        t = p.new("Table", "t1")
+        tw = lambda c_: p.new("fn.Floor", p.bin("/", p.call(t, "field", "amount"), c_))  # noqa: E731
+        q = p.call(p.call(Q, "from_", t), "select", tw(pair[0]), tw(pair[1]), p.new("fn.Count", "*"))
+        q = p.call(q, "groupby", tw(pair[0]), tw(pair[1]))
+        q = p.call(q, "having", p.bin("&", p.bin(">", p.new("fn.Sum", p.bin("*", p.call(t, "field", "a"), pair[0])), 1),
+                                      p.bin(">", p.new("fn.Sum", p.bin("*", p.call(t, "field", "a"), pair[1])), 1)))
+        q = p.call(q, "orderby", tw(pair[0]), tw(pair[1]))
+        q = p.call(q, "where", p.call(p.call(t, "field", "b"), "isin", [pair[0], pair[1], pair[0]]))
+        out.append({"k": "program", "prog": p.prog(dialect=d, fixed="twin-terms-%s" % (pair[0] == pair[1])), "tgt": q.i})
+        p = P()
+        t = p.new("Table", "t1")
+        ins = p.call(p.call(p.call(Q, "into", t), "columns", "a", "b"), "insert", (pair[0], pair[1]), (pair[0], pair[1]), (pair[1], pair[0]))
+        out.append({"k": "program", "prog": p.prog(dialect=d, fixed="twin-rows"), "tgt": ins.i})
+        p = P()
+        t = p.new("Table", "t1")
+        up = p.call(p.call(p.call(Q, "update", t), "set", "a", pair[0]), "set", "b", pair[1])
+        up = p.call(up, "where", p.bin("|", p.bin("==", p.call(t, "field", "c"), pair[0]), p.bin("==", p.call(t, "field", "c"), pair[1])))
+        out.append({"k": "program", "prog": p.prog(dialect=d, fixed="twin-sets"), "tgt": up.i})
+    # an aliased constant used in the select list (defining) and in other clauses (referring)
+    p = P()
+    t = p.new("Table", "t1")
+    c = p.call(p.new("ValueWrapper", 100), "as_", "threshold")
+    ch = p.call(p.new("ValueWrapper", "web"), "as_", "channel")
+    q = p.call(p.call(Q, "from_", t), "select", p.call(t, "field", "id"), c, ch, p.new("fn.Count", "*"))
+    q = p.call(p.call(q, "where", p.bin(">", p.call(t, "field", "amount"), c)), "groupby", ch)
+    q = p.call(p.call(q, "having", p.bin(">", p.new("fn.Count", "*"), c)), "orderby", ch)
+    out.append({"k": "program", "prog": p.prog(dialect=d, fixed="aliased-constant-everywhere"), "tgt": q.i})
     p = P()
     t = p.new("Table", "t1")
     c = p.new("AliasedQuery", "c1")
